@@ -988,12 +988,17 @@ type membershipAllower struct {
 	oldMember MemberContent
 	// The new membership of the user if this event is accepted.
 	newMember MemberContent
+	// The join rule in effect for this check. This is a copy of the cached join
+	// rule of the allowerContext: the restricted-join checks rewrite it, and the
+	// context is shared between all the events checked through it.
+	joinRule JoinRuleContent
 }
 
 // newMembershipAllower loads the information needed to authenticate the m.room.member event
 // from the auth events.
 func (a *allowerContext) newMembershipAllower(authEvents AuthEventProvider, event PDU) (m membershipAllower, err error) { // nolint: gocyclo
 	m.allowerContext = a
+	m.joinRule = a.joinRule
 	m.roomVersionImpl, err = GetRoomVersion(event.Version())
 	if err != nil {
 		return
